@@ -123,7 +123,12 @@ namespace awkward {
   void
   GrowableBuffer<T>::append(T datum) {
     if (length_ == reserved_) {
-      set_reserved((int64_t)ceil(reserved_ * options_.resize()));
+      int64_t next = (int64_t)ceil(reserved_ * options_.resize());
+      if (next <= reserved_) {
+        // initial == 0 or resize <= 1 would never make room
+        next = reserved_ + 1;
+      }
+      set_reserved(next);
     }
     ptr_.get()[length_] = datum;
     length_++;
